@@ -23,7 +23,7 @@ LEVEL_TEXT = ("Generated validated requests (queries and mutations with fragment
 LEVEL_NOTE = ("trusted: the controlled loop (vf/mon/loop.py; overrides asyncio's private _run_once on the pinned interpreter, self-tested at start-up); interleavings are "
               "those of awaitables the harness hands to the executor; the synchronous baseline is itself checked against R3 by C02")
 TECHNIQUE = "runtime monitoring with schedule control: controlled asyncio loop + seeded/DFS scheduler; schedule-independence oracle (sync baseline), serial-mutation trace monitor, memo-hit monitor"
-RULE = ("requests from G-doc over the rich schema (validated), fault rate in {0, .08}; per request 10 (quick) / 16 (thorough) schedules: awaitable probability in {.15,.4,.8,1}, "
+RULE = ("requests from G-doc over the rich schema, or for a fifth of the seeds over one of 4000 generated valid schemas (validated), fault rate in {0, .08}; per request 10 (quick) / 16 (thorough) schedules: awaitable probability in {.15,.4,.8,1}, "
         "policy in {random, fifo, lifo}, plus exhaustive DFS over all completion orders when a run has <= 5 gates. Non-trivial: the run released >= 2 gates; "
         "distinct = (document, variables, interleaving signature = sequence of released gate labels).")
 ASSUMPTIONS = ["error *sets* may differ between schedules (errors under an already nulled position are dropped); data must not",
@@ -109,7 +109,13 @@ def one_schedule(schema, doc, variables, value_fn, seed, p_async, policy, script
 def check_request(ctx, seed, k):
     schema = rich()
     rng = random.Random(seed)
-    g = DocGen(schema, rng, ops=('query', 'query', 'mutation'), max_depth=3)
+    if seed % 5 == 4:
+        # a generated valid schema (G-schema) instead of the fixed one
+        gs = c02.generated_schema((seed * 7919) % 4000)
+        if gs is not None:
+            schema = gs
+            ctx.count("requests_on_generated_schemas")
+    g = DocGen(schema, rng, ops=('query', 'query', 'mutation') if schema.mutation_type else ('query',), max_depth=3)
     src = g.gen()
     try:
         doc = parse(src)
